@@ -502,6 +502,18 @@ def check_positions(ctx, wit, itoks, posclass):
 
 # ---- (e) offsets -------------------------------------------------------
 
+def _has_strip(ana):
+    items = getattr(ana, "items", None) or [ana]
+    out = False
+    for x in items:
+        if type(x).__name__ == "StripFilter":
+            out = True
+        sub = getattr(x, "items", None)
+        if sub:
+            out = out or any(type(y).__name__ == "StripFilter" for y in sub)
+    return out
+
+
 def check_offsets(ctx, wit, ana, text, itoks):
     n = len(text)
     done = set()
@@ -519,8 +531,14 @@ def check_offsets(ctx, wit, ana, text, itoks):
             ctx.fail("e.offsets", "chars-out-of-range:%s" % wit["analyzer"], dict(wit, token=t.tup(), textlen=n))
             return
         piece = text[t.sc:t.ec]
-        # the slice IS the token (possibly lower-cased / stripped): exact by inspection
-        if t.text in (piece, piece.lower(), piece.strip(), piece.strip().lower()):
+        # the slice IS the token (possibly lower-cased): exact by inspection. Surrounding white space inside the
+        # slice is only legitimate behind a StripFilter (it strips the token TEXT and documents that it keeps the
+        # offsets of the unstripped token); for every other analyzer a slice with extra blanks is not "exactly the
+        # token's source text" and falls through to the re-analysis test below
+        variants = [piece, piece.lower()]
+        if _has_strip(ana):
+            variants += [piece.strip(), piece.strip().lower()]
+        if t.text in variants:
             ctx.count("e.exact_by_equality")
             continue
         # otherwise (stemming, folding, bi-words, merged sub-words ...): the token must be reproducible from
